@@ -633,17 +633,30 @@ get_prefix_trait(has_traits_object *obj, PyObject *name, int is_set)
         (PyObject *)obj, "__prefix_trait__", "(Oi)", name, is_set);
 
     if (trait != NULL) {
+        int rc;
+
         assert(obj->ctrait_dict != NULL);
-        PyDict_SetItem((PyObject *)obj->ctrait_dict, name, trait);
+        rc = PyDict_SetItem((PyObject *)obj->ctrait_dict, name, trait);
         Py_DECREF(trait);
+        if (rc < 0) {
+            return NULL;
+        }
 
         if (has_traits_setattro(obj, trait_added, name) < 0) {
             return NULL;
         }
 
         trait = get_trait(obj, name, 0);
+        if (trait == NULL) {
+            return NULL;
+        }
         /* We return a borrowed reference, to match dict_getitem. */
         Py_DECREF(trait);
+        if (trait == Py_None) {
+            /* The trait is gone again: there is nothing to borrow. */
+            unknown_attribute_error(obj, name);
+            return NULL;
+        }
     }
 
     return (trait_object *)trait;
